@@ -44,6 +44,7 @@ CAP_PATTERNS = {
     "dropitem": r"std::ptr::drop_glue::<avra_lib::parser::Item>",
     "cloneitem": r"<avra_lib::parser::Item as std::clone::Clone>::clone",
     "dropdoc": r"std::ptr::drop_glue::<avra_lib::document::Document>",
+    "eq": r"<avra_lib::expr::Expr as std::cmp::PartialEq>::eq",
 }
 
 TIER_CAPS = {
@@ -249,7 +250,7 @@ def kani_base(feat, slot):
     return [
         "cargo", "kani", "--lib", "--target-dir", slot_dir(slot),
         "-Z", "stubbing", "-Z", "unstable-options", "--features", feat,
-    ]
+    ] + os.environ.get("AVRA_EXTRA_KANI", "").split()
 
 
 def point_harness_at_repo():
